@@ -125,7 +125,8 @@ func (p *ProjectionPlan) processProjection(kvp KVPair, ctx *ExecuteCtx) ([]Colum
 			int, int8, int16, int32, int64,
 			uint, uint8, uint16, uint32, uint64,
 			float32, float64,
-			JSON, map[string]any, []any:
+			JSON, map[string]any, []any,
+			[]string, []int64, []float64, [][]byte:
 			ret[i] = value
 		default:
 			if value == nil {
